@@ -192,11 +192,25 @@ def sanitizer_env(variant, extra=None):
     return env
 
 
-def run_driver(exe, lines, variant='asan', args=(), timeout=3600, env_extra=None):
-    """Feed case lines to one driver process; returns (list of parsed JSON events, stderr text, returncode)."""
+def _limit_cpu(seconds):
+    import resource
+
+    def f():
+        resource.setrlimit(resource.RLIMIT_CPU, (seconds, seconds + 5))
+        resource.setrlimit(resource.RLIMIT_CORE, (0, 0))
+    return f
+
+
+def run_driver(exe, lines, variant='asan', args=(), timeout=3600, env_extra=None, cpu_limit=None):
+    """Feed case lines to one driver process; returns (list of parsed JSON events, stderr text, returncode).
+    The process runs under RLIMIT_CPU (CPU seconds, so a loaded machine cannot produce a false hang)."""
     inp = ('\n'.join(lines) + '\n').encode()
+    if cpu_limit is None:
+        cpu_limit = 120 + len(lines) // 2
     p = subprocess.run([exe] + list(args), input=inp, stdout=subprocess.PIPE, stderr=subprocess.PIPE,
-                       env=sanitizer_env(variant, env_extra), timeout=timeout)
+                       env=sanitizer_env(variant, env_extra), timeout=timeout, preexec_fn=_limit_cpu(cpu_limit))
+    if p.returncode in (-24, -9) and b'runtime error' not in p.stderr:
+        p = subprocess.CompletedProcess(p.args, p.returncode, p.stdout, p.stderr + b'\nVH-CPU-LIMIT-EXCEEDED\n')
     events = []
     bad = 0
     for ln in p.stdout.split(b'\n'):
@@ -247,6 +261,8 @@ def summarize_sanitizer(err):
     if m:
         fr = re.search(r'#\d+ 0x[0-9a-f]+ in ([^\s(]+)[^\n]*?(/repo/[^\s:]+|/usr/include/[^\s:]+)', err)
         return 'asan:%s:%s' % (m.group(1), (fr.group(1)[:60] if fr else '?'))
+    if 'VH-CPU-LIMIT-EXCEEDED' in err:
+        return 'hang'
     m = re.search(r'VH-TERMINATE ([^\n]*)', err)
     if m:
         return 'terminate:' + m.group(1).strip()
@@ -271,7 +287,7 @@ def run_cases(exe, lines, variant='asan', args=(), workers=None, timeout=3600, e
     if missing:
         def one(ln):
             try:
-                ev, er, r, b = run_driver(exe, [ln], variant, args, timeout, env_extra)
+                ev, er, r, b = run_driver(exe, [ln], variant, args, timeout, env_extra, cpu_limit=60)
             except subprocess.TimeoutExpired:
                 return ln, None, 'timeout', -1
             return ln, (ev[0] if ev else None), er, r
